@@ -113,6 +113,11 @@ def gen(rng):
         pv = TG.pct(loc if top is None else (loc[1:] if top == '/' else loc[len(top) + 1:]))
         date = rng.choice(dates) if (dstmode or rng.random() < 0.4) else TG.rand_date(rng)
         G.add_trashed(steps, tdir, 't%d' % i, pv, TG.iso(date), rng.choice(['file', 'dir', 'link']), tag=str(i))
+        if rng.random() < 0.08 and n <= 100:
+            # next to t<i> an entry called t<i>.trashinfo (a stray info file that somebody trashed), trashed from the sibling location
+            G.add_trashed(steps, tdir, 't%d.trashinfo' % i, pv + '.trashinfo', TG.iso(rng.choice(dates) if dstmode else TG.rand_date(rng)),
+                          rng.choice(['file', 'dir']), tag='%d-ti' % i)
+            twins[0] += 1
         if rng.random() < 0.08:
             # the same path trashed again within the same second (a script that trashes and recreates a file): two entries, two lines
             G.add_trashed(steps, tdir, 't%d_1' % i, pv, TG.iso(date), rng.choice(['file', 'dir']), tag='%d-twin' % i)
@@ -227,7 +232,9 @@ def check(sim, case, st):
     if sm == 'date':
         keys = [d for _i, d, _p in listing]
     elif sm == 'path':
-        keys = [p + d for _i, d, p in listing]
+        # by path, the date breaking ties (NOT by the concatenation path+date, under which '/a/foo.txt' and '/a/foo/x' come
+        # before '/a/foo' because '.' and '/' sort below the first digit of the date)
+        keys = [(p, d) for _i, d, p in listing]
     else:
         keys = None
     if keys is not None:
